@@ -1,15 +1,16 @@
-package main
+// Package mpclgen enumerates MPCL programs family by family from the typed AST of
+// verif/refsem. It is shared by C03 (compiled circuit vs reference interpreter) and C05
+// (streaming mode vs whole-circuit mode).
+package mpclgen
 
 import (
-	"fmt"
-
 	. "verif/refsem"
 )
 
-// gen is one generated program with its family name.
-type gen struct {
-	fam string
-	p   *Program
+// Gen is one generated program with its family name.
+type Gen struct {
+	Fam string
+	P   *Program
 }
 
 func one(t Type) Expr { return Const{T: t, V: 1} }
@@ -23,11 +24,11 @@ func ab(t Type) []Param { return []Param{{Name: "a", T: t}, {Name: "b", T: t}} }
 var arith = []string{"+", "-", "*", "&", "|", "^"}
 var cmps = []string{"<", "<=", ">", ">=", "==", "!="}
 
-// famExpr: every operator x operand shape for one type.
-func famExpr(t Type, emit func(gen)) {
+// FamExpr: every operator x operand shape for one type.
+func FamExpr(t Type, emit func(Gen)) {
 	a, b := Var{Name: "a"}, Var{Name: "b"}
 	ret := func(fam string, rt Type, e Expr) {
-		emit(gen{fam, &Program{Funcs: []Func{mainFn(ab(t), []Type{rt}, []Stmt{Return{X: []Expr{e}}})}}})
+		emit(Gen{fam, &Program{Funcs: []Func{mainFn(ab(t), []Type{rt}, []Stmt{Return{X: []Expr{e}}})}}})
 	}
 	consts := []int64{0, 1, 2}
 	if t.W >= 4 {
@@ -76,11 +77,11 @@ func famExpr(t Type, emit func(gen)) {
 	}
 }
 
-// famCast: widening / narrowing / reinterpreting casts between t and u (same signedness unless same width).
-func famCast(t, u Type, emit func(gen)) {
+// FamCast: widening / narrowing / reinterpreting casts between t and u (same signedness unless same width).
+func FamCast(t, u Type, emit func(Gen)) {
 	a, b := Var{Name: "a"}, Var{Name: "b"}
 	ret := func(rt Type, e Expr) {
-		emit(gen{"cast", &Program{Funcs: []Func{mainFn(ab(t), []Type{rt}, []Stmt{Return{X: []Expr{e}}})}}})
+		emit(Gen{"cast", &Program{Funcs: []Func{mainFn(ab(t), []Type{rt}, []Stmt{Return{X: []Expr{e}}})}}})
 	}
 	ret(u, Cast{T: u, X: a})
 	ret(u, Bin{Op: "+", L: Cast{T: u, X: a}, R: Cast{T: u, X: b}})
@@ -91,8 +92,8 @@ func famCast(t, u Type, emit func(gen)) {
 	ret(BoolT, Bin{Op: "<", L: Cast{T: u, X: a}, R: Cast{T: u, X: b}})
 }
 
-// famIf: if/else skeletons over two variables with assignment, shadowing, early return and nesting.
-func famIf(t Type, emit func(gen)) {
+// FamIf: if/else skeletons over two variables with assignment, shadowing, early return and nesting.
+func FamIf(t Type, emit func(Gen)) {
 	a, b, x, y := Var{Name: "a"}, Var{Name: "b"}, Var{Name: "x"}, Var{Name: "y"}
 	bodies := [][]Stmt{
 		{Assign{Name: "x", X: Bin{Op: "+", L: x, R: y}}},
@@ -136,15 +137,80 @@ func famIf(t Type, emit func(gen)) {
 						// a var declaration inside a branch that shadows an outer variable (Go: block scope)
 						fam = "if-else-branch-shadow"
 					}
-					emit(gen{fam, &Program{Funcs: []Func{mainFn(ab(t), []Type{t, t}, body)}}})
+					emit(Gen{fam, &Program{Funcs: []Func{mainFn(ab(t), []Type{t, t}, body)}}})
 				}
 			}
 		}
 	}
 }
 
-// famLoop: unrolled loops with 0..4 iterations.
-func famLoop(t Type, emit func(gen)) {
+// FamIfNest: several ifs, sequential and nested, whose conditions are drawn from bare
+// bool variables (arguments and a local) and comparisons, so that one condition value is
+// reused by different ifs; every branch assigns the same one or two variables.
+func FamIfNest(t Type, emit func(Gen)) {
+	famIfNest(t, false, emit)
+	famIfNest(t, true, emit)
+}
+
+// famIfNest: with local set, c and d are bool locals derived from a and b (a two-argument
+// main, as the two-party protocols need) instead of bool arguments.
+func famIfNest(t Type, local bool, emit func(Gen)) {
+	a, b, x, y := Var{Name: "a"}, Var{Name: "b"}, Var{Name: "x"}, Var{Name: "y"}
+	conds := []Expr{Var{Name: "c"}, Var{Name: "d"}, Var{Name: "p"}, Bin{Op: "==", L: a, R: b}, Not{X: Var{Name: "c"}}}
+	params := []Param{{Name: "a", T: t}, {Name: "b", T: t}, {Name: "c", T: BoolT}, {Name: "d", T: BoolT}}
+	k := func(v int64) Expr { return Const{T: t, V: v & (1<<uint(min(t.W, 3)) - 1)} }
+	// slot(i, alt): the i-th assignment; alt spreads the slots over x and y
+	slot := func(i int, alt bool) []Stmt {
+		name, v := "x", x
+		if alt && i%2 == 1 {
+			name, v = "y", y
+		}
+		switch i % 3 {
+		case 0:
+			return []Stmt{Assign{Name: name, X: Bin{Op: "+", L: v, R: k(int64(i + 1))}}}
+		case 1:
+			return []Stmt{Assign{Name: name, X: Bin{Op: "^", L: a, R: k(int64(i + 2))}}}
+		}
+		return []Stmt{Assign{Name: name, X: Bin{Op: "-", L: b, R: v}}}
+	}
+	for _, alt := range []bool{false, true} {
+		for i1, c1 := range conds {
+			for i2, c2 := range conds {
+				for i3, c3 := range conds {
+					if i1 >= 3 && i2 >= 3 && i3 >= 3 {
+						continue
+					}
+					shapes := [][]Stmt{
+						// if c1 {..} else {..}; if c2 { if c3 {..} else {..} }
+						{If{Cond: c1, Then: slot(0, alt), Else: slot(1, alt)}, If{Cond: c2, Then: []Stmt{If{Cond: c3, Then: slot(2, alt), Else: slot(3, alt)}}}},
+						// if c1 { if c2 {..} else {..} } else { if c3 {..} else {..} }
+						{If{Cond: c1, Then: []Stmt{If{Cond: c2, Then: slot(0, alt), Else: slot(1, alt)}}, Else: []Stmt{If{Cond: c3, Then: slot(2, alt), Else: slot(3, alt)}}}},
+						// three ifs in a row, the middle one without else
+						{If{Cond: c1, Then: slot(0, alt), Else: slot(3, alt)}, If{Cond: c2, Then: slot(1, alt)}, If{Cond: c3, Then: slot(2, alt), Else: slot(4, alt)}},
+						// if c1 { if c2 {..}; .. } else { .. }; if c3 {..}
+						{If{Cond: c1, Then: append([]Stmt{If{Cond: c2, Then: slot(0, alt)}}, slot(1, alt)...), Else: slot(2, alt)}, If{Cond: c3, Then: slot(3, alt)}},
+					}
+					for _, sh := range shapes {
+						body := []Stmt{Define{Name: "x", X: a}, Define{Name: "y", X: b}, Define{Name: "p", X: Bin{Op: "<", L: a, R: b}}}
+						fam, ps := "if-nest", params
+						if local {
+							fam, ps = "if-nest-local", ab(t)
+							body = append(body,
+								Define{Name: "c", X: Bin{Op: "==", L: Bin{Op: "&", L: a, R: one(t)}, R: one(t)}},
+								Define{Name: "d", X: Bin{Op: "==", L: Bin{Op: "&", L: b, R: one(t)}, R: one(t)}})
+						}
+						body = append(body, sh...)
+						body = append(body, Return{X: []Expr{x, y}})
+						emit(Gen{fam, &Program{Funcs: []Func{mainFn(ps, []Type{t, t}, body)}}})
+					}
+				}
+			}
+		}
+	}
+}
+
+// FamLoop: unrolled loops with 0..4 iterations.
+func FamLoop(t Type, emit func(Gen)) {
 	a, b, acc, i := Var{Name: "a"}, Var{Name: "b"}, Var{Name: "acc"}, Var{Name: "i"}
 	ti := Cast{T: t, X: i}
 	bodies := [][]Stmt{
@@ -164,15 +230,15 @@ func famLoop(t Type, emit func(gen)) {
 				}
 				for _, init := range []Stmt{Define{Name: "acc", X: a}, VarDecl{Name: "acc", T: t}} {
 					body := []Stmt{init, For{Var: "i", From: from, To: n, Body: bd}, Return{X: []Expr{acc}}}
-					emit(gen{"loop", &Program{Funcs: []Func{mainFn(ab(t), []Type{t}, body)}}})
+					emit(Gen{"loop", &Program{Funcs: []Func{mainFn(ab(t), []Type{t}, body)}}})
 				}
 			}
 		}
 	}
 }
 
-// famArray: arrays with constant, loop-variable and in-range dynamic indices; copies; arrays as arguments.
-func famArray(t Type, emit func(gen)) {
+// FamArray: arrays with constant, loop-variable and in-range dynamic indices; copies; arrays as arguments.
+func FamArray(t Type, emit func(Gen)) {
 	a, b := Var{Name: "a"}, Var{Name: "b"}
 	for n := 1; n <= 4; n++ {
 		at := t
@@ -192,7 +258,7 @@ func famArray(t Type, emit func(gen)) {
 						Assign{Name: "arr", Idx: Lit{V: int64(j)}, X: Bin{Op: "^", L: a, R: b}},
 						Return{X: []Expr{Bin{Op: "+", L: Index{A: arr, Idx: Lit{V: int64(j)}}, R: Index{A: Var{Name: "cp"}, Idx: Lit{V: int64(i1)}}}}},
 					}
-					emit(gen{"array-const-index", &Program{Funcs: []Func{mainFn(ab(t), []Type{t}, body)}}})
+					emit(Gen{"array-const-index", &Program{Funcs: []Func{mainFn(ab(t), []Type{t}, body)}}})
 				}
 			}
 		}
@@ -204,18 +270,18 @@ func famArray(t Type, emit func(gen)) {
 			For{Var: "i", From: 0, To: int64(n), Body: []Stmt{Assign{Name: "s", X: Bin{Op: "+", L: Var{Name: "s"}, R: Bin{Op: "*", L: Index{A: arr, Idx: Var{Name: "i"}}, R: b}}}}},
 			Return{X: []Expr{Var{Name: "s"}}},
 		}
-		emit(gen{"array-loop-index", &Program{Funcs: []Func{mainFn(ab(t), []Type{t}, body)}}})
+		emit(Gen{"array-loop-index", &Program{Funcs: []Func{mainFn(ab(t), []Type{t}, body)}}})
 		// array argument, dynamic in-range index (length a power of two, index masked)
 		if (n == 2 || n == 4) && t.W >= 2 && !t.Signed {
 			mask := Const{T: t, V: int64(n - 1)}
 			body := []Stmt{Return{X: []Expr{Bin{Op: "+", L: Index{A: Var{Name: "v"}, Idx: Bin{Op: "&", L: b, R: mask}}, R: Index{A: Var{Name: "v"}, Idx: Lit{V: 0}}}}}}
-			emit(gen{"array-dynamic-index", &Program{Funcs: []Func{mainFn([]Param{{Name: "v", T: at}, {Name: "b", T: t}}, []Type{t}, body)}}})
+			emit(Gen{"array-dynamic-index", &Program{Funcs: []Func{mainFn([]Param{{Name: "v", T: at}, {Name: "b", T: t}}, []Type{t}, body)}}})
 		}
 	}
 }
 
-// famStruct: struct fields, copies and struct arguments.
-func famStruct(t, u Type, emit func(gen)) {
+// FamStruct: struct fields, copies and struct arguments.
+func FamStruct(t, u Type, emit func(Gen)) {
 	a, b := Var{Name: "a"}, Var{Name: "b"}
 	st := Type{Name: "P", Fields: []Type{t, u, t}, Names: []string{"x", "y", "z"}}
 	p, q := Var{Name: "p"}, Var{Name: "q"}
@@ -236,15 +302,15 @@ func famStruct(t, u Type, emit func(gen)) {
 			body = append(body, Define{Name: "q", X: p}, Assign{Name: "q", Field: "z", X: Bin{Op: "-", L: Field{X: p, Name: "x"}, R: b}}, Assign{Name: "p", X: q})
 		}
 		body = append(body, Return{X: []Expr{Bin{Op: "+", L: Field{X: q, Name: "x"}, R: Field{X: p, Name: "z"}}, Field{X: p, Name: "y"}, Field{X: q, Name: "z"}}})
-		emit(gen{"struct", &Program{Structs: []Type{st}, Funcs: []Func{mainFn(ab(t), []Type{t, u, t}, body)}}})
+		emit(Gen{"struct", &Program{Structs: []Type{st}, Funcs: []Func{mainFn(ab(t), []Type{t, u, t}, body)}}})
 	}
 	// struct as argument
 	body := []Stmt{Return{X: []Expr{Bin{Op: "+", L: Field{X: Var{Name: "s"}, Name: "x"}, R: Bin{Op: "*", L: Field{X: Var{Name: "s"}, Name: "z"}, R: b}}, Field{X: Var{Name: "s"}, Name: "y"}}}}
-	emit(gen{"struct-argument", &Program{Structs: []Type{st}, Funcs: []Func{mainFn([]Param{{Name: "s", T: st}, {Name: "b", T: t}}, []Type{t, u}, body)}}})
+	emit(Gen{"struct-argument", &Program{Structs: []Type{st}, Funcs: []Func{mainFn([]Param{{Name: "s", T: st}, {Name: "b", T: t}}, []Type{t, u}, body)}}})
 }
 
-// famCall: helper functions with 1..3 results, arguments aliasing the same variable.
-func famCall(t Type, emit func(gen)) {
+// FamCall: helper functions with 1..3 results, arguments aliasing the same variable.
+func FamCall(t Type, emit func(Gen)) {
 	a, b, u, v := Var{Name: "a"}, Var{Name: "b"}, Var{Name: "u"}, Var{Name: "v"}
 	f1 := Func{Name: "f1", Params: []Param{{Name: "u", T: t}, {Name: "v", T: t}}, Results: []Type{t}, Body: []Stmt{
 		If{Cond: Bin{Op: "<", L: u, R: v}, Then: []Stmt{Return{X: []Expr{Bin{Op: "-", L: v, R: u}}}}},
@@ -256,24 +322,24 @@ func famCall(t Type, emit func(gen)) {
 		Return{X: []Expr{Bin{Op: "*", L: u, R: v}, Bin{Op: ">", L: u, R: v}, Call{Fn: "f1", Args: []Expr{v, u}}}}}}
 	args := [][]Expr{{a, b}, {a, a}, {b, a}, {Bin{Op: "+", L: a, R: b}, a}}
 	for _, ar := range args {
-		emit(gen{"call", &Program{Funcs: []Func{f1, mainFn(ab(t), []Type{t}, []Stmt{Return{X: []Expr{Bin{Op: "+", L: Call{Fn: "f1", Args: ar}, R: b}}}})}}})
-		emit(gen{"call", &Program{Funcs: []Func{f2, mainFn(ab(t), []Type{t, t}, []Stmt{
+		emit(Gen{"call", &Program{Funcs: []Func{f1, mainFn(ab(t), []Type{t}, []Stmt{Return{X: []Expr{Bin{Op: "+", L: Call{Fn: "f1", Args: ar}, R: b}}}})}}})
+		emit(Gen{"call", &Program{Funcs: []Func{f2, mainFn(ab(t), []Type{t, t}, []Stmt{
 			MultiAssign{Names: []string{"p", "q"}, Define: true, C: Call{Fn: "f2", Args: ar}},
 			Return{X: []Expr{Bin{Op: "+", L: Var{Name: "p"}, R: a}, Var{Name: "q"}}}})}}})
-		emit(gen{"call", &Program{Funcs: []Func{f1, f3, mainFn(ab(t), []Type{t, BoolT, t}, []Stmt{
+		emit(Gen{"call", &Program{Funcs: []Func{f1, f3, mainFn(ab(t), []Type{t, BoolT, t}, []Stmt{
 			MultiAssign{Names: []string{"p", "q", "r"}, Define: true, C: Call{Fn: "f3", Args: ar}},
 			If{Cond: Var{Name: "q"}, Then: []Stmt{Assign{Name: "p", X: Bin{Op: "+", L: Var{Name: "p"}, R: Var{Name: "r"}}}}},
 			Return{X: []Expr{Var{Name: "p"}, Var{Name: "q"}, Var{Name: "r"}}}})}}})
 		// results assigned to existing variables, arguments overwritten
-		emit(gen{"call", &Program{Funcs: []Func{f2, mainFn(ab(t), []Type{t, t}, []Stmt{
+		emit(Gen{"call", &Program{Funcs: []Func{f2, mainFn(ab(t), []Type{t, t}, []Stmt{
 			Define{Name: "p", X: a}, Define{Name: "q", X: b},
 			MultiAssign{Names: []string{"q", "p"}, C: Call{Fn: "f2", Args: ar}},
 			Return{X: []Expr{Var{Name: "p"}, Var{Name: "q"}}}})}}})
 	}
 }
 
-// famGlobals: package-level constants and variables, shadowed by main's locals and arguments, around an if.
-func famGlobals(t Type, emit func(gen)) {
+// FamGlobals: package-level constants and variables, shadowed by main's locals and arguments, around an if.
+func FamGlobals(t Type, emit func(Gen)) {
 	a, b, g := Var{Name: "a"}, Var{Name: "b"}, Var{Name: "g"}
 	glob := []Global{{Name: "g", T: t, V: 5 % (1 << uint(min(t.W, 3)))}, {Const: true, Name: "K", T: t, V: 3 % (1 << uint(min(t.W, 2)))}}
 	K := Var{Name: "K"}
@@ -288,13 +354,13 @@ func famGlobals(t Type, emit func(gen)) {
 			sfx = "-branch-shadow"
 		}
 		// local shadowing a package-level variable
-		emit(gen{"globals-shadow-local" + sfx, &Program{Globals: glob, Funcs: []Func{mainFn(ab(t), []Type{t}, []Stmt{
+		emit(Gen{"globals-shadow-local" + sfx, &Program{Globals: glob, Funcs: []Func{mainFn(ab(t), []Type{t}, []Stmt{
 			VarInit{Name: "g", T: t, X: Bin{Op: "+", L: a, R: K}}, st, Return{X: []Expr{Bin{Op: "+", L: g, R: b}}}})}}})
 		// argument shadowing a package-level variable
-		emit(gen{"globals-shadow-argument" + sfx, &Program{Globals: glob, Funcs: []Func{mainFn([]Param{{Name: "g", T: t}, {Name: "b", T: t}}, []Type{t},
+		emit(Gen{"globals-shadow-argument" + sfx, &Program{Globals: glob, Funcs: []Func{mainFn([]Param{{Name: "g", T: t}, {Name: "b", T: t}}, []Type{t},
 			[]Stmt{Define{Name: "a", X: Bin{Op: "+", L: g, R: K}}, st, Return{X: []Expr{Bin{Op: "+", L: g, R: a}}}})}}})
 		// no shadowing: the package-level variable itself is read
-		emit(gen{"globals-read", &Program{Globals: glob, Funcs: []Func{mainFn(ab(t), []Type{t}, []Stmt{
+		emit(Gen{"globals-read", &Program{Globals: glob, Funcs: []Func{mainFn(ab(t), []Type{t}, []Stmt{
 			Define{Name: "h", X: Bin{Op: "+", L: g, R: a}},
 			If{Cond: Bin{Op: "<", L: a, R: b}, Then: []Stmt{Assign{Name: "h", X: Bin{Op: "+", L: Var{Name: "h"}, R: K}}}, Else: []Stmt{Assign{Name: "h", X: Bin{Op: "-", L: Var{Name: "h"}, R: g}}}},
 			Return{X: []Expr{Bin{Op: "+", L: Var{Name: "h"}, R: g}}}})}}})
@@ -308,4 +374,75 @@ func min(a, b int) int {
 	return b
 }
 
-func describe(g gen) string { return fmt.Sprintf("[%s]", g.fam) }
+// TypesFor returns the operand types of the expression family.
+func TypesFor(quick bool) []Type {
+	ws := []int{1, 2, 3, 4, 7, 8, 9, 16, 31, 32, 33, 64, 65, 128}
+	if !quick {
+		ws = []int{1, 2, 3, 4, 5, 7, 8, 9, 15, 16, 17, 31, 32, 33, 63, 64, 65, 127, 128, 129, 130}
+	}
+	var ts []Type
+	for _, w := range ws {
+		ts = append(ts, Uint(w))
+		if w > 1 {
+			ts = append(ts, Int(w))
+		}
+	}
+	return ts
+}
+
+// Statements enumerates the statement-level families (if-else, if-nest, loop, array, call,
+// globals, struct) for the given tier.
+func Statements(quick bool, emit func(Gen)) {
+	stmtTypes := []Type{Uint(3), Int(3), Uint(8)}
+	if !quick {
+		stmtTypes = []Type{Uint(2), Uint(3), Int(3), Uint(4), Int(4), Uint(8), Int(8), Uint(33), Int(65)}
+	}
+	for _, t := range stmtTypes {
+		FamIf(t, emit)
+		FamLoop(t, emit)
+		FamArray(t, emit)
+		FamCall(t, emit)
+		FamGlobals(t, emit)
+	}
+	nestTypes := []Type{Uint(3)}
+	if !quick {
+		nestTypes = []Type{Uint(2), Uint(3), Int(4), Uint(8)}
+	}
+	for _, t := range nestTypes {
+		FamIfNest(t, emit)
+	}
+	for _, tu := range [][2]Type{{Uint(3), Uint(5)}, {Int(4), Int(2)}, {Uint(8), Uint(3)}} {
+		FamStruct(tu[0], tu[1], emit)
+	}
+}
+
+// Casts enumerates the cast family.
+func Casts(quick bool, emit func(Gen)) {
+	cw := []int{1, 3, 4, 8, 9, 16, 32, 33, 64, 65}
+	for _, signed := range []bool{false, true} {
+		for _, w1 := range cw {
+			for _, w2 := range cw {
+				if w1 == w2 || (signed && (w1 == 1 || w2 == 1)) {
+					continue
+				}
+				if quick && (w1 > 16 && w2 > 16) && (w1+w2)%3 != 0 {
+					continue
+				}
+				FamCast(Type{Signed: signed, W: w1}, Type{Signed: signed, W: w2}, emit)
+			}
+		}
+	}
+	for _, w := range []int{4, 8, 33, 64, 65} {
+		FamCast(Uint(w), Int(w), emit)
+		FamCast(Int(w), Uint(w), emit)
+	}
+}
+
+// All enumerates every family in the order C03 uses.
+func All(quick bool, emit func(Gen)) {
+	for _, t := range TypesFor(quick) {
+		FamExpr(t, emit)
+	}
+	Casts(quick, emit)
+	Statements(quick, emit)
+}
